@@ -102,7 +102,8 @@ CLAIMS = {
         "strings, three-way grouping check on flat operator chains, all-operator grid on pkg.Evaluate*.",
         note="R10 is proved at token level: C05_parse_print (Proofs/ParseGroup, ParseAtoms, ParseDoc) — for every well-formed expression tree of any size the "
         "parser model returns exactly that tree from its token sequence (operators by prec, left associative; parentheses, negation, calls, members, selectors, "
-        "argument lists), the literal decoder being a parameter (ConstOK; satisfiable: unary_ok). Not proved: the lexer (characters to tokens: spacing, comments, "
+        "argument lists), the literal decoder being a parameter (ConstOK; satisfiable: unary_ok) and instantiated with the real decoder for integers inside int64, "
+        "quotable strings, booleans and nil (C05_parse_print_real, Proofs/RealLiterals; floats not covered). Not proved: the lexer (characters to tokens: spacing, comments, "
         "keyword case) and the literal notations of realDec (ParseInt/ParseFloat/unquote, exact rational arithmetic in the model) — validated by the correspondence. "
         "Fix 82ab5bc corrected the published table (& binds like + - |).",
         tech="Lean 4 theorems over regenerated operator tables + regenerated syntax facts (decide ties) + differential correspondence of the front end", ref="5.C05"),
